@@ -445,7 +445,7 @@ def run(ctx):
                       {"correspondence": "restore-exec", "case": desc, "storage": json_group(c["group"]), "exit": r["exit"],
                        "errors": r["errors"], "output": r["out"]}, failing_input=False)
     ctx.traces = len(cases)
-    if not ctx.violations:
+    if not ctx.has_failing_input():
         big_part(ctx)
     paths_part(ctx)
     ctx.assumptions += ["SHA-512 is collision-free on the generated contents (the model's hash is the content itself)",
